@@ -539,6 +539,54 @@ def adversarial_cases(ctx, stats, thorough):
                 "x = 5 % 18446744069414584321;", "x = 7 \\ 52435875175126190479447740508185965837690552500527637822603658699938581184513;"):
         for c in CURVES:
             add("arith", F(src), ["t.circom", "--curve", c])
+    # operators whose cost could depend on the VALUE of an operand rather than on its size
+    # (constant folding in value propagation is not interruptible: the 10 s time box is
+    # polled between passes only), and loops / dimensions with huge constant bounds, which
+    # a static analyser must not iterate or allocate
+    PR = {"BN254": 21888242871839275222246405745257275088548364400416034343698204186575808495617,
+          "BLS12_381": 52435875175126190479447740508185965837690552500527637822603658699938581184513,
+          "GOLDILOCKS": 18446744069414584321}
+    big200 = (1 << 199) + 12345678901234567890123456789
+    for c in CURVES:
+        pm1 = PR[c] - 1
+        exps = [1 << 20, 10 ** 7, (1 << 31) - 1, 1 << 31, 4000000000, (1 << 32) - 1, 1 << 32, 10 ** 12, pm1]
+        for base in (2, 3, pm1, big200):
+            for e in exps:
+                add("value-cost:pow", F("x = %d ** %d;" % (base, e)), ["t.circom", "--curve", c])
+        for e in exps:
+            add("value-cost:pow-var", F("var e = %d; var r = 3 ** e; x = r + a;" % e), ["t.circom", "--curve", c])
+            add("value-cost:pow-template", T("var e = %d; var r = 2 ** e; b <== a * r;" % e).replace(" b <== a; }", " }"),
+                ["t.circom", "--curve", c])
+            add("value-cost:pow-assign-op", F("x = 3; x **= %d;" % e), ["t.circom", "--curve", c])
+        for src in ("x = (3 ** 65536) ** 65536;", "x = 2 ** 3 ** 4000000;", "x = 3 ** 4000000000 ** 2;",
+                    "x = (2 ** 4000000000) + (3 ** 4000000000);", "log(3 ** 4000000000);", "assert(3 ** 4000000000 == 1);",
+                    "x = a ** 4000000000;", "x = 3 ** a;", "x = 0 ** 4000000000;", "x = 1 ** 4000000000;",
+                    "x = (0 - 1) ** 4000000001;", "var y[3 ** 4000000000];", "x = 5 ? 3 ** 4000000000 : 2;"):
+            add("value-cost:pow-forms", F(src), ["t.circom", "--curve", c])
+        counts = [1 << 20, 10 ** 7, (1 << 31) - 1, 1 << 31, 4000000000, (1 << 32) - 1, 1 << 32, 1 << 40, (1 << 63) - 1,
+                  1 << 63, (1 << 64) - 1, pm1 // 2, pm1 // 2 + 1, pm1 - 5, pm1]
+        for k in counts:
+            add("value-cost:shift", F("x = 1 << %d; x = %d >> %d; x = %d << %d; var s = %d; x = 3 << s; x = x >> s;"
+                                      % (k, pm1, k, big200, k, k)), ["t.circom", "--curve", c])
+        for src in ("x = %d \\ 3; x = %d %% 2; x = ~%d; x = %d \\ %d; x = %d %% %d;" % (pm1, pm1, pm1, big200, pm1, big200, pm1),
+                    "x = ~0; x = ~(~1); x = !%d; x = -%d;" % (pm1, pm1),
+                    "x = %d * %d; x = %d / %d; x = 1 / %d;" % (pm1, pm1, pm1, big200, big200),
+                    "x = %d & %d; x = %d | %d; x = %d ^ %d;" % (pm1, big200, pm1, big200, pm1, big200)):
+            add("value-cost:other-operators", F(src), ["t.circom", "--curve", c])
+    for src in ("for (var i = 0; i < 4000000000; i++) { x += i; }",
+                "for (var i = 0; i < 4000000000; i++) { for (var j = 0; j < 4000000000; j++) { x += i * j; } }",
+                "for (var i = 4000000000; i > 0; i--) { x = x * 3; }",
+                "while (x < 4000000000) { x = x * 2 + 1; }", "while (1) { x = 3 ** x; }",
+                "var y[4000000000]; y[3999999999] = 1; x = y[0];", "var y[1 << 40]; x = y[1 << 39];",
+                "var y[2][4000000000]; x = y[1][7];", "var y[2] = [1, 2]; x = y[4000000000];"):
+        add("value-cost:huge-bounds", F(src))
+    for src in ("signal s[4000000000]; for (var i = 0; i < 4000000000; i++) { s[i] <== a * i; }",
+                "signal s[1 << 40]; s[0] <== a;", "component c[4000000000]; for (var i = 0; i < 4000000000; i++) { c[i] = A(); c[i].in <== a; }",
+                "signal s[2 ** 4000000000]; s[0] <== a;", "var n = 4000000000; signal s[n]; s[n - 1] <== a;"):
+        add("value-cost:huge-bounds-template", T(src, ANON))
+    add("value-cost:main-args", "template M(n) { signal input a[n]; signal output b; var s = 0; for (var i = 0; i < n; i++) { s += a[i]; } b <== s; }\n"
+        "component main = M(4000000000);\n")
+    add("value-cost:main-args", "template M(n) { signal output b; b <== 3 ** n; }\ncomponent main = M(4000000000);\n")
     # log strings around the 230-byte split
     for pre in range(224, 234):
         for ch in ("é", "€", "\U0001F600"):
